@@ -1,4 +1,5 @@
 From Coq Require Import ExtrOcamlBasic NArith List.
 From LLRP Require Import Driver.Publish.
 Extraction Language OCaml.
-Extraction "model.ml" init step run expected drain pending published onconnects resource_of.
+Extraction "model.ml" init init_up step run expected drain inflight starting parked pending published
+  isup onconnects sdk_up_calls resource_of conn_reading retime.
